@@ -10,6 +10,7 @@ package main
 
 import (
 	"fmt"
+	"os"
 	"strconv"
 	"strings"
 	"testing"
@@ -83,7 +84,7 @@ func stampModel(v AVia, on bool, srcIP string, srcPort int) AVia {
 
 func TestC07(t *testing.T) {
 	V.Rule("lab (services started from generated YAML text, no-received absent / false / true per listen entry): requests from user agents at distinct loopback addresses over UDP (from port 5060 or 6010) and over accepted TCP connections, and requests a TCP backend sends over the connection the proxy opened to it; the sender's top Via names its own or another endpoint, an alias or a foreign host, with rport absent / valueless / pre-filled with a wrong port, received absent / spoofed, further parameters around them, more Via entries beneath, laid out in any way; plus bursts of 2-40 requests sent back to back from several source sockets (each must be stamped with its own source). Oracle at the next hop: sender's entry = as sent with received=<source IP> (exactly one) and rport=<source port> iff rport was present; every other parameter and entry textually untouched; with received-support off the entry is textually the one sent. Then the backend answers and the response must arrive at (source IP, source port) if rport was requested, (source IP, sent-by port) otherwise, at the sent-by/received address as written when support is off, on the same connection for TCP. non-trivial = spoofed received or pre-filled rport, or sent-by different from the source; distinct by (instance, ingress, sender Via)")
-	V.Require("support:on", "support:off", "ingress:udp", "ingress:tcp-accepted", "ingress:tcp-outbound-to-backend", "spoofed received", "pre-filled rport", "valueless rport", "no rport", "sent-by is another endpoint", "response returned to true source", "burst: >=2 sources interleaved")
+	V.Require("engine:bin (real binary)", "support:on", "support:off", "ingress:udp", "ingress:tcp-accepted", "ingress:tcp-outbound-to-backend", "spoofed received", "pre-filled rport", "valueless rport", "no rport", "sent-by is another endpoint", "response returned to true source", "burst: >=2 sources interleaved")
 	vars := []stdVariant{
 		{NoReceived: [3]string{"", "false", "true"}},
 		{NoReceived: [3]string{"true", "", "false"}, Keep: "on"},
@@ -97,9 +98,10 @@ func TestC07(t *testing.T) {
 		svcs = append(svcs, s)
 	}
 
-	rcheck(t, "user-agents", V.N(700, 3000), func(rt *rapid.T) {
-		vi := rapid.IntRange(0, len(svcs)-1).Draw(rt, "instance")
-		s := svcs[vi]
+	active := svcs
+	userAgents := func(rt *rapid.T) {
+		vi := rapid.IntRange(0, len(active)-1).Draw(rt, "instance")
+		s := active[vi]
 		g := s.gIngress(rt, "ingress", []int{0, 1})
 		L := s.transportOf(g)
 		stamp := s.model.receivedSupport(g.Entry)
@@ -234,7 +236,34 @@ func TestC07(t *testing.T) {
 			failf(rt, "received-support %v, packet came from %s:%d, sender's Via %q: response must go to %s:%d/%s; receptions:\n%s", stamp, srcIP, srcPort, own.String(), hop.IP, hop.Port, hop.Proto, labDescribe(got))
 		}
 		V.ClassIf(stamp && got[0].ep.ip == srcIP, "response returned to true source")
-	})
+	}
+	rcheck(t, "user-agents", V.N(700, 3000), userAgents)
+
+	// bin engine: the same property against the real binary started with the
+	// generated YAML file (the wiring of no-received through main is the point)
+	if os.Getenv("VERIF_BIN") != "" && !V.replay {
+		var binSvcs []*stdSvc
+		for _, v := range vars {
+			v.Bin = true
+			s, err := newStdSvc(v)
+			if err != nil {
+				V.HarnessError(t, "cannot start the binary: %v", err)
+			}
+			defer s.in.stopBin()
+			binSvcs = append(binSvcs, s)
+		}
+		active = binSvcs
+		rcheck(t, "bin-user-agents", V.N(150, 500), func(rt *rapid.T) {
+			userAgents(rt)
+			V.Class("engine:bin (real binary)")
+		})
+		for _, s := range binSvcs {
+			if d := s.in.binDead(); d != "" {
+				V.Violation(t, "", nil, "%s", d)
+			}
+		}
+		active = svcs
+	}
 
 	// bursts: requests from several sources back to back, so that a datagram is
 	// read from the socket before the previous one has been decoded
